@@ -64,7 +64,12 @@ Theorem C12_wrap_conflict_2 : forall c, sget c F_WrapErrors = Some (SBool true) 
   forall r, parse_common x_common_table c K_wrapErrorsUsing r = Diag D_CONFLICT.
 Proof. exact wrap_conflict_2. Qed.
 
+(* the signature of a declared method is classified with the METHOD-level arg:context:regex (read from the call site) *)
+Theorem C12_method_signature_uses_method_record : x_opts_converter_method_ctx = s2r "m.ArgContextRegex"%string.
+Proof. reflexivity. Qed.
+
 Print Assumptions C12_precedence.
+Print Assumptions C12_method_signature_uses_method_record.
 Print Assumptions C12_converter_record.
 Print Assumptions C12_bool_values.
 Print Assumptions C12_table_as_documented.
